@@ -5,6 +5,7 @@ import (
 	"encoding/json"
 	"fmt"
 	"os/exec"
+	"sort"
 	"strings"
 	"sync"
 	"time"
@@ -28,6 +29,8 @@ func partConcurrent(c *check.Ctx, a *acc, prop string) {
 	n := c.Pick(200, 2000)
 	var mu sync.Mutex
 	done, nontrivial, relays, views := 0, 0, 0, 0
+	stepped, steppedReached := 0, 0
+	stepSites := map[string]int{}
 	sigs := map[string]map[string]int{}
 	var samples []any
 	workers := 16
@@ -38,8 +41,29 @@ func partConcurrent(c *check.Ctx, a *acc, prop string) {
 				p.Kill()
 			}
 		}()
+		pool := map[string]bool{}
 		for i := w; i < n; i += workers {
-			jitter := i%2 == 1
+			jitter := i%3 == 1
+			var step *e2.Step
+			if i%3 == 2 {
+				// stepped block: park one arrival at a scheduling point the earlier
+				// blocks of this worker passed (the first one only learns the points)
+				step = &e2.Step{Hold: 25 * time.Millisecond}
+				if len(pool) > 0 {
+					var names []string
+					for s := range pool {
+						names = append(names, s)
+					}
+					sort.Strings(names)
+					h := uint64(c.Seed)*0x9E3779B97F4A7C15 + uint64(i)*0xBF58476D1CE4E5B9
+					h ^= h >> 31
+					step.Site = names[h%uint64(len(names))]
+					step.Skip = int((h >> 40) % 4)
+					if (h>>50)%2 == 0 {
+						step.Skip = 0
+					}
+				}
+			}
 			if p == nil || !p.Alive() {
 				var err error
 				p, err = c.WS.StartLab(bin, sut.LabOpts{Frame: 2 * time.Millisecond, Name: "block"})
@@ -56,9 +80,21 @@ func partConcurrent(c *check.Ctx, a *acc, prop string) {
 			class := blockClasses[i%len(blockClasses)]
 			cfg := e1.Config{Seed: c.Seed*4_000_037 + int64(i)*6151 + 9, Steps: 25 + (i*7)%40, MaxConns: 5, MaxSess: 1, Mods: modSubsets[(i/len(blockClasses))%len(modSubsets)],
 				Profile: "view", Avoid: avoidList()}
-			res := e2.Block(c.WS, p, cfg, class)
+			res := e2.BlockStepped(c.WS, p, cfg, class, step)
+			for _, s := range res.SitesHit {
+				if strings.HasPrefix(s, "models.") || strings.HasPrefix(s, "websocket.RealtimeHandler") || strings.HasPrefix(s, "vikja.") || strings.HasPrefix(s, "odal.") || strings.HasPrefix(s, "dagaz.") || strings.HasPrefix(s, "websocket.handler.") {
+					pool[s] = true
+				}
+			}
 			mu.Lock()
 			done++
+			if step != nil && step.Site != "" {
+				stepped++
+				if res.StepReached {
+					steppedReached++
+					stepSites[step.Site]++
+				}
+			}
 			relays += res.Relays
 			views += res.ViewsCompared
 			if res.Inconclusive != "" {
@@ -75,7 +111,7 @@ func partConcurrent(c *check.Ctx, a *acc, prop string) {
 					sigs[class][res.OrderSig]++
 				}
 				if len(samples) < 3 {
-					samples = append(samples, map[string]any{"engine": "E2 concurrent block", "class": class, "jitter": jitter, "prefix_steps": cfg.Steps, "block": res.Desc, "relay_order_at_witness": res.OrderSig})
+					samples = append(samples, map[string]any{"engine": "E2 concurrent block", "class": class, "jitter": jitter, "stepped": step != nil, "prefix_steps": cfg.Steps, "block": res.Desc, "relay_order_at_witness": res.OrderSig})
 				}
 			}
 			for _, f := range res.Findings {
@@ -98,7 +134,11 @@ func partConcurrent(c *check.Ctx, a *acc, prop string) {
 	c.Coverage["concurrent_block_views_compared"] = views
 	c.Coverage["concurrent_block_interleaving_signatures_by_class"] = sigs
 	c.Coverage["concurrent_block_distinct_signatures"] = distinct
-	a.add(done, nontrivial, "E2 concurrent blocks: after a sequential prefix judged by the model, 2-3 members of one session fire 1-4 requests each at once (classes: mutations on different keys, same-key writers, with a newcomer joining, with a member leaving, both), free-running or under jitter at injected scheduling points; after a frame barrier and a barrier on every connection: exactly-once / never-echoed / per-sender order by origin tag, and every member's folded view (and the newcomer's) against the state handed to a probe; non-trivial when at least 2 senders' relays were attributed", samples...)
+	c.Coverage["stepped_blocks"] = stepped
+	c.Coverage["stepped_blocks_gate_reached"] = steppedReached
+	c.Coverage["stepped_blocks_distinct_sites_parked_at"] = len(stepSites)
+	c.Coverage["stepped_blocks_sites"] = stepSites
+	a.add(done, nontrivial, "E2 concurrent blocks: after a sequential prefix judged by the model, 2-3 members of one session fire 1-4 requests each at once (classes: mutations on different keys, same-key writers, with a newcomer joining, with a member leaving, both), free-running, under jitter at injected scheduling points, or stepped (one arrival at a scheduling point that earlier blocks passed is parked for 25 ms while the others run); after a frame barrier and a barrier on every connection: exactly-once / never-echoed / per-sender order by origin tag, and every member's folded view (and the newcomer's) against the state handed to a probe; non-trivial when at least 2 senders' relays were attributed", samples...)
 }
 
 // partStoreStress: E6 - concurrent Add/Update/Delete/List/DeleteByEntityID on
